@@ -1,9 +1,103 @@
 import Lean.Data.Json
-/-! Line-protocol handler for property C14 (model side of the correspondence). -/
+import SpoxModel.Model.Func
+import SpoxModel.Model.FuncSem
+/-! Line-protocol handler for C14: (a) function collection + de-duplication on the structure of a real
+    build, (b) the max opset policy for a function's imports, (c) direct vs ONNX reading of programs
+    with function calls (integers; operator labels 0 add 1 sub 2 mul 3 neg 4 abs). -/
 namespace Drv.C14
-open Lean
+open Lean Func FuncSem
 
-/-- One request (a JSON value) in, one response (a JSON value) out. -/
-def handle (_req : Json) : Json := Json.mkObj [("error", "unimplemented")]
+mutual
+partial def parseFNode (j : Json) : Except String FNode := do
+  match j with
+  | .str "op" => return .op
+  | _ =>
+    match j.getObjVal? "call" with
+    | .ok c =>
+      let d ← c.getObjValAs? String "domain"
+      let n ← c.getObjValAs? String "name"
+      let fp ← c.getObjValAs? Nat "fp"
+      let body ← parseFGraph (← c.getObjVal? "body")
+      return .call (d, n) fp body
+    | .error _ =>
+      let subsJ ← j.getObjValAs? (Array Json) "ctrl"
+      let subs ← subsJ.toList.mapM parseFGraph
+      return .ctrl subs
+partial def parseFGraph (j : Json) : Except String FGraph := do
+  let nodesJ ← j.getObjValAs? (Array Json) "nodes"
+  let nodes ← nodesJ.toList.mapM parseFNode
+  return .mk nodes
+end
+
+def instJson (e : Inst) : Json := Json.arr #[e.1.1, e.1.2, toJson e.2]
+def pairJson (p : String × Nat) : Json := Json.arr #[p.1, toJson p.2]
+
+def pairs (j : Json) (k : String) : Except String (List (String × Nat)) := do
+  let a ← j.getObjValAs? (Array Json) k
+  a.toList.mapM (fun p => do
+    let x ← p.getArr?
+    return (← (x[0]!).getStr?, ← (x[1]!).getNat?))
+
+mutual
+partial def parseSNode (j : Json) : Except String SNode := do
+  let a ← j.getArr?
+  let k ← (a[0]!).getStr?
+  if k == "op" then
+    let l ← (a[1]!).getNat?
+    let ins ← fromJson? (a[2]!)
+    return .op l ins
+  else
+    let inst ← parseSInst (a[1]!)
+    let ins ← fromJson? (a[2]!)
+    return .call inst ins
+partial def parseSInst (j : Json) : Except String SInst := do
+  let key ← j.getObjValAs? Nat "key"
+  let out ← j.getObjValAs? Nat "out"
+  let bodyJ ← j.getObjValAs? (Array Json) "body"
+  let body ← bodyJ.toList.mapM parseSNode
+  return .mk key body out
+end
+
+def semInt (l : Nat) (xs : List Int) : Int :=
+  match l, xs with
+  | 0, [a, b] => a + b
+  | 1, [a, b] => a - b
+  | 2, [a, b] => a * b
+  | 3, [a] => -a
+  | 4, [a] => Int.ofNat a.natAbs
+  | _, _ => 0
+
+def handle (req : Json) : Json :=
+  match (do
+    let k ← req.getObjValAs? String "k"
+    match k with
+    | "collect" =>
+      let g ← parseFGraph (← req.getObjVal? "g")
+      let used := (usedG g).map instJson
+      match toModel g with
+      | some tbl => return Json.mkObj [("functions", Json.arr (tbl.map instJson).toArray),
+                                       ("collected", Json.arr ((collectG g).map instJson).toArray),
+                                       ("used", Json.arr used.toArray)]
+      | none => return Json.mkObj [("err", "runtime"), ("used", Json.arr used.toArray)]
+    | "policy" =>
+      let body ← pairs req "body"
+      let model ← pairs req "model"
+      let imp := funcImports body (policy model)
+      return Json.mkObj [("imports", Json.arr (imp.map pairJson).toArray),
+                         ("model", Json.arr ((policy model).map pairJson).toArray)]
+    | "sem" =>
+      let progJ ← req.getObjValAs? (Array Json) "prog"
+      let prog ← progJ.toList.mapM parseSNode
+      let env ← req.getObjValAs? (List Int) "env"
+      let direct := evalNodes semInt 0 prog env
+      match buildTable prog with
+      | none => return Json.mkObj [("direct", toJson direct), ("err", "runtime")]
+      | some tbl =>
+        let onnx := evalO semInt 0 tbl (depthNs prog) (eraseNs prog) env
+        return Json.mkObj [("direct", toJson direct), ("onnx", toJson onnx),
+                           ("keys", toJson (tbl.map (fun (p : Nat × ODef) => p.1))), ("depth", toJson (depthNs prog))]
+    | _ => throw "bad request kind") with
+  | .ok j => j
+  | .error e => Json.mkObj [("error", e)]
 
 end Drv.C14
